@@ -34,6 +34,8 @@ type Script struct {
 	StopAtMs int      `json:"stopAtMs"` // when the input is closed (after the last push if larger)
 	Final    string   `json:"final"`    // what the intake answers after the scripted outcomes ("200" or "500")
 	Drain    bool     `json:"drain"`    // wait (bounded) until every chunk was confirmed before the stop
+	// the client's httpTimeout in ms (0 = 150); with a long one only the stop request can end a request the intake never answers
+	HTTPTimeoutMs int `json:"httpTimeoutMs"`
 }
 
 func runScript(sc Script, no int) *vtrace.Tracer {
@@ -41,6 +43,11 @@ func runScript(sc Script, no int) *vtrace.Tracer {
 	tr.Emit("History", "n", sc.N, "script", sc.ID)
 	var mu sync.Mutex
 	reqNo := 0
+	httpTimeout := 150 * time.Millisecond
+	if sc.HTTPTimeoutMs > 0 {
+		httpTimeout = time.Duration(sc.HTTPTimeoutMs) * time.Millisecond
+	}
+	hangFor := httpTimeout + 250*time.Millisecond
 	srv := &http.Server{Handler: http.HandlerFunc(func(w http.ResponseWriter, r *http.Request) {
 		body, _ := io.ReadAll(r.Body)
 		mu.Lock()
@@ -56,7 +63,10 @@ func runScript(sc Script, no int) *vtrace.Tracer {
 		switch out {
 		case "hang":
 			tr.Emit("ServerGot", "id", id, "status", 0, "how", "hang")
-			time.Sleep(400 * time.Millisecond) // longer than the client's HTTP timeout
+			select { // longer than the client's HTTP timeout, unless the client gives up first
+			case <-r.Context().Done():
+			case <-time.After(hangFor):
+			}
 			return
 		case "reset":
 			tr.Emit("ServerGot", "id", id, "status", 0, "how", "reset")
@@ -94,7 +104,7 @@ func runScript(sc Script, no int) *vtrace.Tracer {
 		OnFinished:      func() { tr.Emit("Finished"); close(finished) },
 	}
 	mf := promreg.NewMetricFactory(fmt.Sprintf("dd%d_", no), nil, nil)
-	w := datadog.NewClientWorker(logger.Root(), args, mf, datadog.UpstreamConfig{Address: "http://" + ln.Addr().String() + "/api/v2/logs", HTTPTimeout: 150 * time.Millisecond})
+	w := datadog.NewClientWorker(logger.Root(), args, mf, datadog.UpstreamConfig{Address: "http://" + ln.Addr().String() + "/api/v2/logs", HTTPTimeout: httpTimeout})
 	w.Start()
 	start := time.Now()
 	for i := 1; i <= sc.N; i++ {
